@@ -100,7 +100,11 @@ fn plan(prop: &str) -> Vec<(Eng, u64, u64)> {
     }
 }
 
-const VERIF_DIR: &str = "/verif";
+/// Root of the verification tree (evidence, replays, known findings). Overridable for scratch
+/// campaigns (mutant sweeps against a copy of the repository) so that they never touch /verif.
+pub fn verif_dir() -> String {
+    std::env::var("VERIF_DIR").unwrap_or_else(|_| "/verif".to_string())
+}
 
 #[derive(serde::Deserialize, Debug, Clone)]
 struct KnownEntry {
@@ -117,7 +121,7 @@ struct KnownEntry {
 }
 
 fn load_known() -> Vec<KnownEntry> {
-    let path = format!("{VERIF_DIR}/known_findings.json");
+    let path = format!("{}/known_findings.json", verif_dir());
     match std::fs::read_to_string(&path) {
         Ok(s) => match serde_json::from_str::<Value>(&s) {
             Ok(v) => {
@@ -306,7 +310,7 @@ fn cmd_check(args: &[String]) {
     let mut regression_replays = 0u64;
     for k in known_all.iter().filter(|k| k.property == prop && k.status == "fixed") {
         if let Some(rp) = &k.replay {
-            let path = if rp.starts_with('/') { rp.clone() } else { format!("{VERIF_DIR}/{rp}") };
+            let path = if rp.starts_with('/') { rp.clone() } else { format!("{}/{rp}", verif_dir()) };
             regression_replays += 1;
             match replay_path(&path, false, false) {
                 0 => {}
@@ -334,7 +338,7 @@ fn cmd_check(args: &[String]) {
             rep.engine, rep.runs, rep.nontrivial_distinct, rep.interleavings, rep.states, rep.sim_ticks, rep.wall_s
         );
         if let Some(f) = &rep.failure {
-            let path = runner::write_replay(&format!("{VERIF_DIR}/replays"), &prop, &rep.engine, seed, tier, f);
+            let path = runner::write_replay(&format!("{}/replays", verif_dir()), &prop, &rep.engine, seed, tier, f);
             out!(
                 "  violation in run {} (run seed {}): {}/{} [{}] {}",
                 f.run_index, f.run_seed, f.violation.prop, f.violation.rule, f.violation.sig, f.violation.msg
@@ -425,7 +429,7 @@ fn write_evidence(prop: &str, tier: Tier, seed: u64, reports: &[EngineReport], w
         "wall_s": wall,
         "violations": violations,
     });
-    let dir = format!("{VERIF_DIR}/evidence");
+    let dir = format!("{}/evidence", verif_dir());
     let _ = std::fs::create_dir_all(&dir);
     let path = format!("{dir}/{prop}.json");
     if let Err(e) = std::fs::write(&path, serde_json::to_string_pretty(&ev).unwrap()) {
